@@ -17,6 +17,10 @@
 //                  `IntoIterator` iteration and IdRanges::from_ranges (generic iterator) are C
 //   IdMap       A: is_empty contains remove intersect_with as_id_set; insert and merge_with: whole body lifted (R18) with the
 //                  statements that only touch the `attrs` interning cache dropped (@drop)
+//               A (body lifted whole, R18, attrs-cache statements dropped; value type abstracted as CA: Merge):
+//                  Diff<IdSet>::diff_with, Diff<IdMap<U>>::diff_with, merge_many (point set only), from_set (wrapper iterators
+//                  inlined), filter (predicate over the value: `predicate(&attrs.0)` spelled `predicate(attrs)`),
+//                  attributions (find_start stub from unit ids; AttrRange stand-in, empty list = CA::default())
 //   From<IdMap<A>> for IdSet::from  A (body lifted whole into a free fn: a trait-method impl cannot carry `requires`)
 //   (*)  range_mut: ONE named finding obligation, see FINDING below.   (**) over stand-ins of the block layer, section 7.
 //
@@ -38,6 +42,9 @@
 //   IdSet::range_mut(c) creates the entry before the caller inserts anything and hands out `&mut IdRange`: an empty
 //   per-client entry stays behind if the caller inserts nothing.  Input: `IdSet::new().range_mut(ClientID(1));` => is_empty()
 //   is false for a set without points and `!= IdSet::new()`.
+// FINDING F-L6 (second named obligation, degenerate input): ids_lift::idmap_attributions::post :: no_empty_piece
+//   IdMap::attributions(&BlockRange{client, clock: c, len: 0}) returns ONE piece with the empty range c..c; for len > 0 the
+//   clause is proved (`range.len > 0 ==> no_empty_piece(res@)`).
 //   Repaired in /repo meanwhile (their clauses are ordinary ensures now): IdMapInner::insert_range with an empty range,
 //   IdSet::insert(id, 0), IdSet::insert_range(c, empty), IdSet::from_iter (empty item; duplicate client replaced instead of merged).
 //
@@ -2239,6 +2246,540 @@ pub mod vx_ids {
                 lemma_visited_step(it.seq(), n, c);
             }
             done = d2;
+        }
+    @*/
+
+    // ---- IdMap::filter -----------------------------------------------------------------------------------------------------
+    // Under the `CA: Merge` abstraction of the value type the attribute list `attrs.0` handed to the predicate is the value
+    // itself: `predicate(&attrs.0)` is spelled `predicate(attrs)` with `F: Fn(&CA) -> bool`.  The statements feeding the `attrs`
+    // interning cache are dropped.
+    impl<T: Merge> IdRanges<T> {
+        /*@extract yrs/src/ids.rs | impl<T: Merge> IdRanges<T> | fn from_raw | label=ranges_from_raw
+        @ret r
+        @sig
+            ensures r@ == raw@,
+        @*/
+    }
+
+    /// `a` is the subsequence of `s` at the strictly increasing positions `idx`
+    pub open spec fn subseq_at<T>(s: Seq<Ent<T>>, idx: Seq<int>, a: Seq<Ent<T>>) -> bool {
+        &&& a.len() == idx.len()
+        &&& forall|p: int| 0 <= p < idx.len() ==> 0 <= #[trigger] idx[p] < s.len() && a[p] == s[idx[p]]
+        &&& forall|p: int, q: int| 0 <= p < q < idx.len() ==> #[trigger] idx[p] < #[trigger] idx[q]
+    }
+
+    pub open spec fn in_idx(idx: Seq<int>, j: int) -> bool {
+        exists|p: int| 0 <= p < idx.len() && #[trigger] idx[p] == j
+    }
+
+    /// a subsequence of a canonical sequence is canonical.  In particular two surviving pieces never become adjacent-and-equal:
+    /// neighbours in the source are covered by `coalesced(s)`, and if a piece between them was dropped that piece is non-empty,
+    /// so the survivors are separated by a gap.
+    pub proof fn lemma_subseq_canon<T: Merge>(s: Seq<Ent<T>>, idx: Seq<int>, a: Seq<Ent<T>>)
+        requires
+            canon(s),
+            subseq_at(s, idx, a),
+        ensures
+            canon(a),
+            forall|k: int| #[trigger] covers(a, k) ==> covers(s, k) && in_idx(idx, idx_of(s, k)) && val_at(a, k) == val_at(s, k),
+            forall|k: int| #![trigger covers(a, k)] covers(s, k) && in_idx(idx, idx_of(s, k)) ==> covers(a, k),
+    {
+        assert forall|p: int, q: int| 0 <= p < q < a.len() implies (#[trigger] a[p]).0.end <= (#[trigger] a[q]).0.start by {
+            assert(idx[p] < idx[q]);
+            assert(s[idx[p]].0.end <= s[idx[q]].0.start);
+        }
+        assert forall|p: int, q: int| 0 <= p && q == p + 1 && q < a.len() && (#[trigger] a[p]).0.end == (#[trigger] a[q]).0.start implies !a[p].1.eq_spec(&a[q].1) by {
+            let i = idx[p];
+            let j = idx[q];
+            assert(i < j);
+            if j == i + 1 {
+                assert(s[i].0.end == s[j].0.start);
+                assert(!s[i].1.eq_spec(&s[j].1));
+            } else {
+                // a dropped piece in between: it is non-empty, so the survivors are not adjacent
+                assert(s[i].0.end <= s[i + 1].0.start);
+                assert(s[i + 1].0.start < s[i + 1].0.end);
+                assert(s[i + 1].0.end <= s[j].0.start);
+                assert(false);
+            }
+        }
+        assert(nonempty(a)) by {
+            assert forall|p: int| 0 <= p < a.len() implies (#[trigger] a[p]).0.start < a[p].0.end by { assert(a[p] == s[idx[p]]); }
+        }
+        assert(vals_wf(a)) by {
+            assert forall|p: int| 0 <= p < a.len() implies (#[trigger] a[p]).1.wf() by { assert(a[p] == s[idx[p]]); }
+        }
+        assert forall|k: int| #[trigger] covers(a, k) implies covers(s, k) && in_idx(idx, idx_of(s, k)) && val_at(a, k) == val_at(s, k) by {
+            let p = idx_of(a, k);
+            assert(inr(a[p].0, k));
+            assert(a[p] == s[idx[p]]);
+            lemma_idx_unique(s, idx[p], k);
+            lemma_idx_unique(a, p, k);
+            assert(idx[p] == idx_of(s, k));
+        }
+        assert forall|k: int| #![trigger covers(a, k)] covers(s, k) && in_idx(idx, idx_of(s, k)) implies covers(a, k) by {
+            let j = idx_of(s, k);
+            assert(inr(s[j].0, k));
+            let p = choose|p: int| 0 <= p < idx.len() && #[trigger] idx[p] == j;
+            assert(a[p] == s[j]);
+            assert(inr(a[p].0, k));
+        }
+    }
+
+    /// the predicate's verdict on entry `j` is recorded: accepted iff its position is in `idx`
+    pub open spec fn verdicts<T: Merge, F: Fn(&T) -> bool>(pred: F, s: Seq<Ent<T>>, idx: Seq<int>, n: int) -> bool {
+        forall|j: int| 0 <= j < n && j < s.len() ==> #[trigger] call_ensures(pred, (&s[j].1,), in_idx(idx, j))
+    }
+
+    /// `a` = the pieces of `s` the predicate accepts
+    pub open spec fn seq_filtered<T: Merge, F: Fn(&T) -> bool>(pred: F, s: Seq<Ent<T>>, a: Seq<Ent<T>>) -> bool {
+        &&& canon(a)
+        &&& forall|k: int| #[trigger] covers(a, k) ==> covers(s, k) && val_at(a, k) == val_at(s, k) && call_ensures(pred, (&val_at(s, k),), true)
+        &&& forall|k: int| #![trigger covers(s, k)] covers(s, k) && !covers(a, k) ==> call_ensures(pred, (&val_at(s, k),), false)
+    }
+
+    pub proof fn lemma_filtered<T: Merge, F: Fn(&T) -> bool>(pred: F, s: Seq<Ent<T>>, idx: Seq<int>, a: Seq<Ent<T>>)
+        requires
+            canon(s),
+            subseq_at(s, idx, a),
+            verdicts(pred, s, idx, s.len() as int),
+        ensures
+            seq_filtered(pred, s, a),
+    {
+        lemma_subseq_canon(s, idx, a);
+        assert forall|k: int| #[trigger] covers(a, k) implies covers(s, k) && val_at(a, k) == val_at(s, k) && call_ensures(pred, (&val_at(s, k),), true) by {
+            let j = idx_of(s, k);
+            assert(inr(s[j].0, k));
+            assert(call_ensures(pred, (&s[j].1,), in_idx(idx, j)));
+        }
+        assert forall|k: int| #![trigger covers(s, k)] covers(s, k) && !covers(a, k) implies call_ensures(pred, (&val_at(s, k),), false) by {
+            let j = idx_of(s, k);
+            assert(inr(s[j].0, k));
+            assert(call_ensures(pred, (&s[j].1,), in_idx(idx, j)));
+        }
+    }
+
+    /// what filter has established for a visited client `c`
+    pub open spec fn client_filtered<T: Merge, F: Fn(&T) -> bool>(pred: F, s: Seq<Ent<T>>, m: Map<ClientID, Seq<Ent<T>>>, c: ClientID) -> bool {
+        if m.contains_key(c) {
+            m[c].len() > 0 && seq_filtered(pred, s, m[c])
+        } else {
+            seq_filtered(pred, s, Seq::<Ent<T>>::empty())
+        }
+    }
+
+    pub open spec fn filter_inv<T: Merge, F: Fn(&T) -> bool>(pred: F, src: Map<ClientID, Seq<Ent<T>>>, m: Map<ClientID, Seq<Ent<T>>>, done: Set<ClientID>) -> bool {
+        forall|c: ClientID| #![trigger m.contains_key(c)] #![trigger done.contains(c)]
+            (m.contains_key(c) ==> done.contains(c))
+            && (done.contains(c) ==> src.contains_key(c) && client_filtered(pred, src[c], m, c))
+    }
+
+    pub proof fn lemma_filter_done<T: Merge, F: Fn(&T) -> bool>(pred: F, src: Map<ClientID, Seq<Ent<T>>>, m: Map<ClientID, Seq<Ent<T>>>, done: Set<ClientID>)
+        requires
+            wf_map(src),
+            filter_inv(pred, src, m, done),
+            forall|c: ClientID| #[trigger] src.contains_key(c) ==> done.contains(c),
+        ensures
+            wf_map(m),
+            forall|c: ClientID, k: int| #[trigger] has_pt(m, c, k) ==> has_pt(src, c, k) && val(m, c, k) == val(src, c, k) && call_ensures(pred, (&val(src, c, k),), true),
+            forall|c: ClientID, k: int| #![trigger has_pt(src, c, k)] has_pt(src, c, k) && !has_pt(m, c, k) ==> call_ensures(pred, (&val(src, c, k),), false),
+    {
+        assert forall|c: ClientID| #[trigger] m.contains_key(c) implies canon(m[c]) && m[c].len() > 0 by {
+            assert(done.contains(c));
+        }
+        assert forall|c: ClientID, k: int| #[trigger] has_pt(m, c, k) implies has_pt(src, c, k) && val(m, c, k) == val(src, c, k) && call_ensures(pred, (&val(src, c, k),), true) by {
+            assert(m.contains_key(c));
+            assert(done.contains(c));
+        }
+        assert forall|c: ClientID, k: int| #![trigger has_pt(src, c, k)] has_pt(src, c, k) && !has_pt(m, c, k) implies call_ensures(pred, (&val(src, c, k),), false) by {
+            assert(src.contains_key(c));
+            assert(done.contains(c));
+            if !m.contains_key(c) {
+                let e = Seq::<Ent<T>>::empty();
+                assert(seq_filtered(pred, src[c], e));
+                if covers(e, k) {
+                    let i = idx_of(e, k);
+                    assert(inr(e[i].0, k));
+                }
+            }
+        }
+    }
+
+    /*@extract yrs/src/id_map.rs | impl<A: PartialEq + Eq + Hash + Clone> IdMap<A> | region filter | arm=pub fn filter<F>(&self, predicate: F) -> Self where F: Fn(&[ContentAttribute<A>]) -> bool, A: Clone, | label=idmap_filter | skip=R6 | rules=INLINE(file=yrs/src/ids.rs;;container=impl<T: Merge> IdMapInner<T>;;fn=iter;;body=self.0.iter();;call=self.inner.iter();;to=this.inner.0.iter()) INLINE(file=yrs/src/ids.rs;;container=impl<T: Merge> IdRanges<T>;;fn=iter;;body=self.0.iter();;call=ranges.iter();;to=ranges.0.iter()) SUB(from=predicate(&attrs.0);;to=predicate(attrs)) SUB(from=ContentAttributes<A>;;to=CA)
+    @header
+        fn idmap_filter<CA: Merge, F: Fn(&CA) -> bool>(this: &IdMap<CA>, predicate: F) -> (res: IdMap<CA>)
+    @drop `for attr in &attrs.0`
+    @sig
+        requires
+            wf_map(this@),
+            forall|v: &CA| #[trigger] call_requires(predicate, (v,)),
+        ensures
+            // canonical per client and NO empty per-client entry (a client whose pieces are all rejected is not stored)
+            wf_map(res@),
+            // exactly the points whose attribute value the predicate accepts, with their values
+            forall|c: ClientID, k: int| #[trigger] has_pt(res@, c, k) ==> has_pt(this@, c, k) && val(res@, c, k) == val(this@, c, k) && call_ensures(predicate, (&val(this@, c, k),), true),
+            forall|c: ClientID, k: int| #![trigger has_pt(this@, c, k)] has_pt(this@, c, k) && !has_pt(res@, c, k) ==> call_ensures(predicate, (&val(this@, c, k),), false),
+    @start
+        let ghost mut done = Set::<ClientID>::empty();
+        let ghost src = this.inner.raw();
+        proof { axiom_client_id_key_model(); lemma_lift_basics(src); }
+    @loop 1 iter=it
+        invariant
+            src == this.inner.raw(),
+            iter_of(it.seq(), src),
+            wf_map(lift(src)),
+            forall|v: &CA| #[trigger] call_requires(predicate, (v,)),
+            canon_all(filtered@),
+            filter_inv(predicate, lift(src), filtered@, done),
+            forall|c: ClientID| done.contains(c) <==> visited(it.seq(), it.index@ as int, c),
+    @before 1 `stmt:let attr_ranges`
+        let ghost n = it.index@ as int;
+        let ghost s = ranges@;
+        let ghost m0 = filtered@;
+        let ghost raw0 = filtered.inner.raw();
+        let ghost mut idx = Seq::<int>::empty();
+        proof {
+            axiom_client_id_key_model();
+            lemma_lift_basics(src);
+            lemma_lift_basics(raw0);
+            assert(it.seq()[n] == (client, ranges));
+            assert(src.contains_key(*client) && src[*client] == *ranges);
+            assert(lift(src).contains_key(*client) && lift(src)[*client] == s);
+            assert(canon(s));
+            if done.contains(*client) {
+                let i = choose|i: int| 0 <= i < n && *(#[trigger] it.seq()[i]).0 == *client;
+                lemma_iter_keys_distinct(it.seq(), src, i, n);
+            }
+            assert(!m0.contains_key(*client));
+        }
+    @loop 2 iter=it2
+        invariant
+            it2.seq().len() == s.len(),
+            forall|j: int| 0 <= j < s.len() ==> *(#[trigger] it2.seq()[j]) == s[j],
+            canon(s),
+            forall|v: &CA| #[trigger] call_requires(predicate, (v,)),
+            subseq_at(s, idx, attr_ranges@),
+            forall|p: int| 0 <= p < idx.len() ==> #[trigger] idx[p] < it2.index@,
+            verdicts(predicate, s, idx, it2.index@ as int),
+    @before 1 `stmt:if`
+        let ghost i = it2.index@ as int;
+        let ghost idx0 = idx;
+        proof { assert(*it2.seq()[i] == s[i]); assert(s[i] == (*range, *attrs)); }
+    @after 1 `stmt:call push`
+        proof {
+            idx = idx0.push(i);
+            assert(range_copy == s[i]);
+            assert forall|j: int| 0 <= j < i + 1 && j < s.len() implies #[trigger] call_ensures(predicate, (&s[j].1,), in_idx(idx, j)) by {
+                if j < i {
+                    assert(call_ensures(predicate, (&s[j].1,), in_idx(idx0, j)));
+                    if in_idx(idx0, j) {
+                        let p = choose|p: int| 0 <= p < idx0.len() && #[trigger] idx0[p] == j;
+                        assert(idx[p] == j);
+                    }
+                    if in_idx(idx, j) {
+                        let p = choose|p: int| 0 <= p < idx.len() && #[trigger] idx[p] == j;
+                        assert(p < idx0.len() && idx0[p] == j);
+                    }
+                } else {
+                    assert(idx[idx0.len() as int] == i);
+                }
+            }
+        }
+    @after 1 `stmt:if`
+        proof {
+            if idx == idx0 {
+                // rejected: position i is not recorded
+                assert(!in_idx(idx0, i)) by {
+                    if in_idx(idx0, i) {
+                        let p = choose|p: int| 0 <= p < idx0.len() && #[trigger] idx0[p] == i;
+                        assert(idx0[p] < i);
+                    }
+                }
+                assert forall|j: int| 0 <= j < i + 1 && j < s.len() implies #[trigger] call_ensures(predicate, (&s[j].1,), in_idx(idx, j)) by {}
+            }
+        }
+    @after 2 `stmt:for`
+        let ghost a1 = attr_ranges@;
+        proof { lemma_filtered(predicate, s, idx, a1); }
+    @after 2 `stmt:if`
+        proof {
+            let raw1 = filtered.inner.raw();
+            lemma_lift_basics(raw1);
+            if a1.len() > 0 {
+                let x = raw1[*client];
+                assert(raw1 == raw0.insert(*client, x));
+                lemma_lift_insert(raw0, *client, x);
+                assert(filtered@ == m0.insert(*client, a1));
+            } else {
+                assert(filtered@ == m0);
+                assert(a1 =~= Seq::<Ent<CA>>::empty());
+            }
+            let d2 = done.insert(*client);
+            assert forall|c: ClientID| d2.contains(c) <==> visited(it.seq(), n + 1, c) by {
+                lemma_visited_step(it.seq(), n, c);
+            }
+            assert(client_filtered(predicate, s, filtered@, *client));
+            assert forall|c: ClientID| #![trigger filtered@.contains_key(c)] #![trigger d2.contains(c)]
+                (filtered@.contains_key(c) ==> d2.contains(c))
+                && (d2.contains(c) ==> lift(src).contains_key(c) && client_filtered(predicate, lift(src)[c], filtered@, c)) by {
+                if c != *client {
+                    assert(filtered@.contains_key(c) == m0.contains_key(c));
+                    if done.contains(c) { assert(client_filtered(predicate, lift(src)[c], m0, c)); }
+                }
+            }
+            done = d2;
+        }
+    @after 1 `stmt:for`
+        proof {
+            assert forall|c: ClientID| #[trigger] lift(src).contains_key(c) implies done.contains(c) by {
+                assert(src.contains_key(c));
+            }
+            lemma_filter_done(predicate, lift(src), filtered@, done);
+        }
+    @*/
+
+    // ---- IdMap::attributions ---------------------------------------------------------------------------------------------
+    /// R17 stand-in for `AttrRange<A> { range, attrs: ContentAttributes<A> }` under the `CA` abstraction of the value type
+    pub struct AttrRange<CA> {
+        pub range: Range<u32>,
+        pub attrs: CA,
+    }
+
+    /// "the empty attribute list": a value the empty constructor returns (real: `ContentAttributes::new()`, here `CA::default()`)
+    pub open spec fn is_empty_attrs<CA: Default>(x: CA) -> bool {
+        call_ensures(CA::default, (), x)
+    }
+
+    impl<CA: Default> AttrRange<CA> {
+        /*@extract yrs/src/id_map.rs | impl<A> AttrRange<A> | fn new | label=attr_range_new | rules=SUB(from=ContentAttributes::new();;to=CA::default())
+        @ret r
+        @sig
+            ensures r.range == range, is_empty_attrs(r.attrs),
+        @*/
+    }
+
+    impl<T: Merge> IdRanges<T> {
+        // proved in unit ids
+        #[verifier::external_body]
+        /*@extract yrs/src/ids.rs | impl<T: Merge> IdRanges<T> | fn find_start
+        @ret r
+        @sig
+            requires canon(self@),
+            ensures
+                // the least index whose entry ends after `clock` (i.e. contains it or starts after it)
+                r.is_none() ==> forall|i: int| 0 <= i < self@.len() ==> (#[trigger] self@[i]).0.end <= clock,
+                r.is_some() ==> r.unwrap() < self@.len() && clock < self@[r.unwrap() as int].0.end
+                    && forall|i: int| 0 <= i < r.unwrap() ==> (#[trigger] self@[i]).0.end <= clock,
+        @*/
+    }
+
+    /// a covered piece carries exactly the attribute value of the map at each of its clocks; a gap carries the empty list
+    pub open spec fn piece_ok<CA: Merge + Default>(m: Map<ClientID, Seq<Ent<CA>>>, client: ClientID, p: AttrRange<CA>) -> bool {
+        ||| forall|k: int| #[trigger] inr(p.range, k) ==> has_pt(m, client, k) && val(m, client, k) == p.attrs
+        ||| is_empty_attrs(p.attrs) && forall|k: int| #[trigger] inr(p.range, k) ==> !has_pt(m, client, k)
+    }
+
+    pub open spec fn pieces_ok<CA: Merge + Default>(m: Map<ClientID, Seq<Ent<CA>>>, client: ClientID, v: Seq<AttrRange<CA>>) -> bool {
+        forall|i: int| 0 <= i < v.len() ==> piece_ok(m, client, #[trigger] v[i])
+    }
+
+    pub open spec fn no_empty_piece<CA>(v: Seq<AttrRange<CA>>) -> bool {
+        forall|i: int| 0 <= i < v.len() ==> (#[trigger] v[i]).range.start < v[i].range.end
+    }
+
+    /// the pieces start at `lo` and each one starts where the previous one ends (in order, no overlap, no hole)
+    pub open spec fn chain<CA>(v: Seq<AttrRange<CA>>, lo: int) -> bool {
+        &&& v.len() > 0 ==> v[0].range.start == lo
+        &&& forall|i: int, j: int| 0 <= i && j == i + 1 && j < v.len() ==> (#[trigger] v[i]).range.end == (#[trigger] v[j]).range.start
+        &&& forall|i: int| 0 <= i < v.len() ==> (#[trigger] v[i]).range.start <= v[i].range.end
+    }
+
+    pub open spec fn end_of<CA>(v: Seq<AttrRange<CA>>, lo: int) -> int {
+        if v.len() > 0 { v.last().range.end as int } else { lo }
+    }
+
+    pub open spec fn attr_inv<CA: Merge + Default>(m: Map<ClientID, Seq<Ent<CA>>>, client: ClientID, v: Seq<AttrRange<CA>>, lo: int, hi: int) -> bool {
+        pieces_ok(m, client, v) && chain(v, lo) && lo <= end_of(v, lo) <= hi
+    }
+
+    /// no point of the client in [from, hi)
+    pub open spec fn tail_free<CA: Merge>(m: Map<ClientID, Seq<Ent<CA>>>, client: ClientID, from: int, hi: int) -> bool {
+        forall|k: int| from <= k < hi ==> !#[trigger] has_pt(m, client, k)
+    }
+
+    pub proof fn lemma_push_piece<CA: Merge + Default>(m: Map<ClientID, Seq<Ent<CA>>>, client: ClientID, v: Seq<AttrRange<CA>>, p: AttrRange<CA>, lo: int, hi: int)
+        requires
+            attr_inv(m, client, v, lo, hi),
+            p.range.start == end_of(v, lo),
+            p.range.start <= p.range.end <= hi,
+            piece_ok(m, client, p),
+        ensures
+            attr_inv(m, client, v.push(p), lo, hi),
+            end_of(v.push(p), lo) == p.range.end,
+            no_empty_piece(v) && p.range.start < p.range.end ==> no_empty_piece(v.push(p)),
+    {
+        let w = v.push(p);
+        assert forall|i: int| 0 <= i < w.len() implies piece_ok(m, client, #[trigger] w[i]) by {
+            if i < v.len() { assert(w[i] == v[i]); }
+        }
+        assert forall|i: int, j: int| 0 <= i && j == i + 1 && j < w.len() implies (#[trigger] w[i]).range.end == (#[trigger] w[j]).range.start by {
+            if j < v.len() { assert(w[i] == v[i] && w[j] == v[j]); } else { assert(w[i] == v.last()); }
+        }
+        assert forall|i: int| 0 <= i < w.len() implies (#[trigger] w[i]).range.start <= w[i].range.end by {
+            if i < v.len() { assert(w[i] == v[i]); }
+        }
+        if v.len() > 0 { assert(w[0] == v[0]); }
+        if no_empty_piece(v) && p.range.start < p.range.end {
+            assert forall|i: int| 0 <= i < w.len() implies (#[trigger] w[i]).range.start < w[i].range.end by {
+                if i < v.len() { assert(w[i] == v[i]); }
+            }
+        }
+    }
+
+    /*@extract yrs/src/id_map.rs | impl<A: PartialEq + Eq + Hash + Clone> IdMap<A> | region attributions | arm=pub fn attributions(&self, range: &BlockRange) -> Vec<AttrRange<A>> | label=idmap_attributions | rules=SUB(from=self.inner;;to=this.inner) SUB(from=AttrRange<A>;;to=AttrRange<CA>) INLINE(file=yrs/src/ids.rs;;container=impl<T: Merge> IdRanges<T>;;fn=as_slice;;body=&self.0;;call=dr.as_slice();;to=&dr.0)
+    @header
+        fn idmap_attributions<CA: Merge + Default>(this: &IdMap<CA>, range: &BlockRange) -> (res: Vec<AttrRange<CA>>)
+    @sig
+        requires
+            wf_map(this@),
+            // domain restriction: the block lies in the u32 clock space
+            range.clock + range.len <= u32::MAX,
+        ensures
+            res@.len() > 0,
+            // in order, each piece starts where the previous one ends: together they are exactly [clock, clock + len)
+            chain(res@, range.clock as int),
+            end_of(res@, range.clock as int) == range.clock + range.len,
+            // covered pieces carry exactly the attributes of the map at their clocks, gaps the empty attribute list
+            pieces_ok(this@, range.client, res@),
+            // no empty piece.
+            // FINDING F-L6 (degenerate input): for an EMPTY block (`len == 0`) the function returns ONE piece with the empty range
+            // `clock..clock` (the final `else` pushes block_start..block_end unconditionally) instead of no piece
+            no_empty_piece(res@),
+            range.len > 0 ==> no_empty_piece(res@),
+    @start
+        let ghost m = this@;
+        let ghost cl = range.client;
+        let ghost bs = range.clock as int;
+        let ghost be = range.clock + range.len;
+        proof { axiom_client_id_key_model(); lemma_lift_basics(this.inner.raw()); }
+    @before 1 `stmt:let entries`
+        let ghost s = dr@;
+        proof {
+            assert(m.contains_key(cl) && m[cl] == s);
+            assert(canon(s));
+        }
+    @loop 1
+        invariant
+            m == this@, cl == range.client, bs == range.clock, be == range.clock + range.len, be == block_end, bs == block_start,
+            client == cl,
+            m.contains_key(cl) && m[cl] == s,
+            canon(s),
+            entries@ == s,
+            index <= s.len(),
+            attr_inv(m, cl, result@, bs, be),
+            no_empty_piece(result@),
+            prev_end == end_of(result@, bs),
+            prev_end == be || forall|j: int| 0 <= j < index ==> (#[trigger] s[j]).0.end <= prev_end,
+            index < s.len() ==> s[index as int].0.end > bs,
+            index < s.len() ==> prev_end == bs || prev_end <= s[index as int].0.start,
+        ensures
+            attr_inv(m, cl, result@, bs, be),
+            no_empty_piece(result@),
+            tail_free(m, cl, end_of(result@, bs), be),
+        decreases s.len() - index,
+    @before 5 `stmt:if`
+        proof {
+            // the clamped piece [r_start, r_end) of entry `index`
+            let e = s[index as int];
+            assert(*entry_range == e.0 && *entry_attrs == e.1);
+            if r_start >= r_end {
+                // nothing of this entry (nor of any later one) lies inside the block after prev_end
+                assert forall|k: int| prev_end <= k < be implies !#[trigger] has_pt(m, cl, k) by {
+                    if covers(s, k) {
+                        let j = idx_of(s, k);
+                        assert(inr(s[j].0, k));
+                        if j < index {
+                            assert(s[j].0.end <= prev_end);
+                        } else {
+                            if j > index { assert(e.0.end <= s[j].0.start); }
+                            // r_start = max(e.start, bs) >= r_end = min(e.end, be), with e.start < e.end and bs < e.end
+                            assert(e.0.start >= be);
+                        }
+                    }
+                }
+            }
+        }
+    @after 6 `stmt:if`
+        proof { assert(end_of(result@, bs) == r_start); }
+    @before 1 `stmt:call push`
+        let ghost v0 = result@;
+    @after 1 `stmt:call push`
+        proof {
+            let p = result@.last();
+            assert(result@ == v0.push(p));
+            // the gap [prev_end, r_start) is free: earlier entries end at or before prev_end, later ones start at or after r_start
+            assert forall|k: int| #[trigger] inr(p.range, k) implies !has_pt(m, cl, k) by {
+                if covers(s, k) {
+                    let j = idx_of(s, k);
+                    assert(inr(s[j].0, k));
+                    if j < index {
+                        assert(s[j].0.end <= prev_end);
+                    } else if j > index {
+                        assert(s[index as int].0.end <= s[j].0.start);
+                    }
+                }
+            }
+            lemma_push_piece(m, cl, v0, p, bs, be);
+        }
+    @before 2 `stmt:call push`
+        let ghost v1 = result@;
+    @after 2 `stmt:call push`
+        proof {
+            let p = result@.last();
+            assert(result@ == v1.push(p));
+            assert(p.attrs == s[index as int].1);
+            assert forall|k: int| #[trigger] inr(p.range, k) implies has_pt(m, cl, k) && val(m, cl, k) == p.attrs by {
+                assert(inr(s[index as int].0, k));
+                lemma_idx_unique(s, index as int, k);
+            }
+            lemma_push_piece(m, cl, v1, p, bs, be);
+            if index + 1 < s.len() {
+                assert(s[index as int].0.end <= s[index + 1].0.start);
+            }
+            if prev_end != be {
+                assert forall|j: int| 0 <= j < index + 1 implies (#[trigger] s[j]).0.end <= prev_end by {
+                    if j < index { assert(s[j].0.end <= s[index as int].0.start); }
+                }
+            }
+        }
+    @after 2 `stmt:if`
+        proof {
+            // find_start found nothing: every entry ends at or before block_start
+            if result@.len() == 0 && !tail_free(m, cl, bs, be) {
+                assert(m.contains_key(cl) && m[cl] == dr@);
+                assert forall|k: int| bs <= k < be implies !#[trigger] has_pt(m, cl, k) by {
+                    if covers(dr@, k) {
+                        let j = idx_of(dr@, k);
+                        assert(inr(dr@[j].0, k));
+                    }
+                }
+            }
+        }
+    @before 3 `stmt:call push`
+        let ghost v2 = result@;
+    @after 3 `stmt:call push`
+        proof {
+            let p = result@.last();
+            assert(result@ == v2.push(p));
+            lemma_push_piece(m, cl, v2, p, bs, be);
+        }
+    @before 4 `stmt:call push`
+        let ghost v3 = result@;
+    @after 4 `stmt:call push`
+        proof {
+            let p = result@.last();
+            assert(result@ == v3.push(p));
+            lemma_push_piece(m, cl, v3, p, bs, be);
         }
     @*/
 }
